@@ -3,7 +3,7 @@ package main
 func init() {
 	register(Harness{
 		Prop: "C13", Pkg: "server/pop3", Func: "VerifC13Session",
-		Quick:    [][]int64{{0, 3, 1, 2}, {1, 4, 0, 3}, {1, 3, 1, 3}},
+		Quick:    [][]int64{{0, 3, 1, 2}, {1, 4, 0, 3}, {1, 3, 1, 3}, {1, 3, 1, 1}},
 		Thorough: [][]int64{{0, 4, 1, 3}, {1, 6, 0, 3}, {1, 4, 1, 3}, {1, 5, 0, 0}, {1, 5, 0, 1}},
 		Unwind:   60,
 		Desc:     "real pop3.startSession loop: optional USER/PASS prelude, k symbolic steps from a menu (valid, malformed, out-of-range, repeated arguments, any USER/PASS/APOP order), then EOF; ghost POP3 model (snapshot at login, mark set); store content changes behind the session",
